@@ -823,7 +823,18 @@ class BitVec:
             w = self.width(ty) or 1
             t = b_top(a + b)
             if t is None:
-                raise Uncertified("constant arithmetic should have been folded")
+                # every operand bit is known under the assumed bits: compute the value
+                va = sum(bit << i for i, bit in enumerate(a))
+                vb = sum(bit << i for i, bit in enumerate(b))
+                oty = ty_of(x[2]) or ty
+                if is_signed(oty):
+                    va = wrap(va, oty)
+                    vb = wrap(vb, oty)
+                if op.endswith('Ovf'):
+                    return [overflow_flag(op[:-3], va, vb, oty)]
+                r = conc_bin(op, va, vb, oty, ty)
+                r &= (1 << w) - 1
+                return [(r >> i) & 1 for i in range(w)]
             return [t] * w
         if k == 'un':
             a = self.bv(x[2])
@@ -854,10 +865,18 @@ class BitVec:
             return out
         if k in ('idx', 'call'):
             deps = []
+            chbits = []
             for ch in children(x):
                 if ty_of(ch) is not None:
-                    deps += self.bv(ch)
+                    bb = self.bv(ch)
+                    deps += bb
+                    chbits.append((ch, bb))
             w = self.width(x[3]) or 1
             t = b_top(deps)
+            if t is None and k == 'call' and x[1] in ('count_ones', 'count_zeros', 'leading_zeros', 'trailing_zeros') and len(chbits) == 1:
+                ch, bb = chbits[0]
+                v = sum(bit << i for i, bit in enumerate(bb))
+                r = conc_intfn(x[1], v, ty_of(ch))
+                return [(r >> i) & 1 for i in range(w)]
             return [t if t else 0] * w
         raise Uncertified("bit-vector of node %s" % k)
